@@ -21,6 +21,8 @@ type MTPlan struct {
 	EarlyStop  bool    `json:"early_stop,omitempty"`  // Shutdown is called while microtasks are still running
 	StopSubmit bool    `json:"stop_submit,omitempty"` // the module's stop routine runs a microtask itself
 	PrepMT     int     `json:"prep_mt,omitempty"`     // the module's prep routine starts a high-priority microtask of duration mtDur[PrepMT] that is still running when the module starts
+	LowLimit   int     `json:"low_limit,omitempty"`   // 1-3: the limit is requested as LowLimit-2 (-1, 0 or 1; documented minimum 2 applies) after a larger one had been set
+	NilModule  int     `json:"nil_module,omitempty"`  // this many blocking submissions are made on a nil *Module (they fail, and leave nothing behind)
 	ErrCh      int     `json:"err_ch,omitempty"`      // 1: an error reporting channel without buffer that nobody reads, 2: one with room for a single report (reports are documented to be dropped when the receiver is busy)
 }
 
@@ -55,6 +57,13 @@ func genMT(rng *rand.Rand, tier string) *MTPlan {
 	}
 	if rng.IntN(4) == 0 {
 		p.ErrCh = 1 + rng.IntN(2)
+	}
+	if rng.IntN(6) == 0 {
+		p.LowLimit = 1 + rng.IntN(3)
+		p.Limit = 2
+	}
+	if rng.IntN(6) == 0 {
+		p.NilModule = 1 + rng.IntN(3)
 	}
 	var kinds []string
 	for _, k := range mtKinds {
@@ -104,6 +113,7 @@ type mtState struct {
 	startT                 []time.Duration // when its function began
 	stopRan                int             // executions of the microtask the stop routine runs
 	prepRan, prepEnded     int             // executions of the microtask the prep routine starts
+	nilModuleBad           string          // a blocking submission on a nil module that did not fail cleanly
 	stopRet                error
 	stopRetSet             bool
 	lastEndT               time.Duration // when the last microtask function returned
@@ -136,6 +146,12 @@ func execMT(p *MTPlan, rc *simkit.RunCtx) {
 	s := &mtState{p: p, rc: rc, execs: make([]int, len(p.Subs)), ended: make([]int, len(p.Subs)), rets: make([]error, len(p.Subs)), retSet: make([]bool, len(p.Subs))}
 	rc.Data = s
 	modules.SetMaxConcurrentMicroTasks(p.Limit)
+	if p.LowLimit > 0 {
+		// a limit below the documented minimum of 2 means 2 (p.Limit is 2 in these runs)
+		modules.SetMaxConcurrentMicroTasks(7)
+		modules.SetMaxConcurrentMicroTasks(p.LowLimit - 2)
+		rc.Probe("limit-below-minimum-requested")
+	}
 	if p.QCap > 0 {
 		modules.VerifSimSetClearanceQueue(p.QCap)
 		rc.Probe("small-clearance-queue")
@@ -192,6 +208,24 @@ func execMT(p *MTPlan, rc *simkit.RunCtx) {
 	maxDelay := time.Hour
 	if p.Tight {
 		maxDelay = 0 // package defaults
+	}
+	for i := 0; i < p.NilModule; i++ {
+		var nm *modules.Module
+		ran := false
+		fn := func(ctx context.Context) error { ran = true; return nil }
+		var err error
+		switch i % 3 {
+		case 0:
+			err = nm.RunMicroTask("on-nil-module", time.Hour, fn)
+		case 1:
+			err = nm.RunLowPriorityMicroTask("on-nil-module", time.Hour, fn)
+		default:
+			err = nm.RunHighPriorityMicroTask("on-nil-module", fn)
+		}
+		if err == nil || ran {
+			s.nilModuleBad = fmt.Sprintf("err=%v ran=%v", err, ran)
+		}
+		rc.Probe("submission-on-nil-module")
 	}
 	body := func(k int) func(context.Context) error {
 		return func(ctx context.Context) error {
@@ -425,6 +459,10 @@ func checkMT(p *MTPlan, rc *simkit.RunCtx) {
 			return
 		}
 		rc.Probe("microtask-from-stop-routine")
+	}
+	if s.nilModuleBad != "" {
+		rc.Fail("C15.run-result", "a blocking microtask variant called on a nil module did not return an error without running the function", s.nilModuleBad)
+		return
 	}
 	if p.PrepMT > 0 && (s.prepRan != 1 || (s.prepEnded != 1 && !s.earlyStopDone)) {
 		rc.Fail("C15.exactly-once", "a microtask started by the module's prep routine was not executed exactly once", fmt.Sprintf("%d executions, %d returns", s.prepRan, s.prepEnded))
